@@ -11,15 +11,10 @@ import (
 func GenSpec(r *vh.Rng) Spec {
 	spec := Spec{PGPhase: map[int64]int64{}, JPrio: map[int64]int64{}, JSys: map[int64]bool{}, TClass: map[int64]int64{}, QRecl: map[int64]int64{}}
 	nn := r.Range(1, 3)
-	type free struct{ cpu, mem, pods, gpu int64 }
-	room := map[int64]*free{}
+	type used struct{ cpu, mem, pods, gpu int64 }
+	room := map[int64]*used{}
 	for i := 1; i <= nn; i++ {
-		ns := sched.NodeSpec{ID: int64(i), Has: true, CPU: int64(r.Range(2, 8)) * 1000, Mem: int64(r.Range(4, 16)) << 20, Pods: int64(r.Range(3, 10))}
-		if r.Chance(1, 4) {
-			ns.GPU = int64(r.Range(1, 3))
-		}
-		spec.Nodes = append(spec.Nodes, ns)
-		room[ns.ID] = &free{ns.CPU, ns.Mem, ns.Pods, ns.GPU}
+		room[int64(i)] = &used{}
 	}
 	nq := r.Range(1, 3)
 	for q := 1; q <= nq; q++ {
@@ -34,11 +29,18 @@ func GenSpec(r *vh.Rng) Spec {
 	tid := int64(0)
 	for j := 1; j <= nj; j++ {
 		js := sched.JobSpec{ID: int64(j), Queue: int64(r.Range(1, nq))}
-		spec.JPrio[js.ID] = int64(r.Range(0, 3))
-		spec.JSys[js.ID] = r.Chance(1, 10)
+		spec.JSys[js.ID] = r.Chance(1, 12)
 		nt := r.Range(1, 5)
 		// a job is mostly running (victim side) or mostly pending (preemptor side) or mixed
 		mode := r.Intn(3)
+		switch mode {
+		case 0:
+			spec.JPrio[js.ID] = int64(r.Range(0, 2))
+		case 1:
+			spec.JPrio[js.ID] = int64(r.Range(1, 3))
+		default:
+			spec.JPrio[js.ID] = int64(r.Range(0, 3))
+		}
 		running := 0
 		for k := 0; k < nt; k++ {
 			tid++
@@ -63,19 +65,15 @@ func GenSpec(r *vh.Rng) Spec {
 				ts.Status = vh.Pick(r, []int64{sched.SRunning, sched.SRunning, sched.SRunning, sched.SRunning, sched.SBound, sched.SReleasing, sched.SSucceeded})
 				nid := int64(r.Range(1, nn))
 				f := room[nid]
-				if ts.Status == sched.SSucceeded {
-					ts.Node = nid
-				} else if f.cpu >= ts.CPU && f.mem >= ts.Mem && f.pods >= 1 && f.gpu >= ts.GPU {
-					f.cpu -= ts.CPU
-					f.mem -= ts.Mem
-					f.pods--
-					f.gpu -= ts.GPU
-					ts.Node = nid
+				ts.Node = nid
+				if ts.Status != sched.SSucceeded {
+					f.cpu += ts.CPU
+					f.mem += ts.Mem
+					f.pods++
+					f.gpu += ts.GPU
 					if ts.Status != sched.SReleasing {
 						running++
 					}
-				} else {
-					ts.Status = sched.SPending
 				}
 			}
 			spec.Tasks = append(spec.Tasks, ts)
@@ -96,6 +94,28 @@ func GenSpec(r *vh.Rng) Spec {
 		}
 		spec.Jobs = append(spec.Jobs, js)
 		spec.PGPhase[js.ID] = vh.Pick(r, []int64{2, 2, 2, 3, 3, 1})
+	}
+	// nodes: what their tasks use plus a small slack, so that pending tasks rarely fit as they are
+	for i := 1; i <= nn; i++ {
+		f := room[int64(i)]
+		ns := sched.NodeSpec{ID: int64(i), Has: true,
+			CPU:  f.cpu + vh.Pick(r, []int64{0, 0, 250, 500, 1000, 3000}),
+			Mem:  f.mem + vh.Pick(r, []int64{0, 1 << 19, 1 << 20, 8 << 20}),
+			Pods: f.pods + vh.Pick(r, []int64{0, 1, 2, 5}),
+			GPU:  f.gpu}
+		if ns.CPU == 0 {
+			ns.CPU = 1000
+		}
+		if ns.Mem == 0 {
+			ns.Mem = 4 << 20
+		}
+		if ns.Pods == 0 {
+			ns.Pods = 2
+		}
+		if r.Chance(1, 5) {
+			ns.GPU++
+		}
+		spec.Nodes = append(spec.Nodes, ns)
 	}
 	// tier layout
 	kinds := []int64{}
@@ -143,6 +163,21 @@ func GenVote(r *vh.Rng, spec Spec) ([]int64, map[string]any, bool) {
 		cands[i], cands[j] = cands[j], cands[i]
 	}
 	reclaim := r.Chance(1, 2)
+	if reclaim {
+		// proportion's reclaimableFn subtracts every candidate from its queue's allocated amount
+		// (Resource.Sub asserts): like the action, hand it tasks that hold resources only
+		keep := cands[:0]
+		st := map[int64]int64{}
+		for _, t := range spec.Tasks {
+			st[t.ID] = t.Status
+		}
+		for _, c := range cands {
+			if st[c] == sched.SRunning || st[c] == sched.SBound {
+				keep = append(keep, c)
+			}
+		}
+		cands = keep
+	}
 	in := spec.Enc()
 	in = append(in, b2i(reclaim), p.ID, int64(len(cands)))
 	in = append(in, cands...)
